@@ -211,6 +211,20 @@ reg(
     "property-based testing (Hypothesis) against closed-form laws, round trips and cross-library differential comparison",
 )
 
+reg(
+    "C13",
+    "The harness owns the schedule: every task blocks on its own gate and a controller releases, among the running tasks, the one "
+    "ranked first by a generated priority, which realises exactly the completion orders a FIFO pool of W workers allows. "
+    "Exhaustive in quick: threads, n <= 3 tasks, every worker count, every failing subset, 4 callable/callback modes (+ a seeded "
+    "slice of {ok, ValueError, custom}^n for n in 3..4, 40 gated forked-process schedules); thorough: threads n <= 5 and processes "
+    "n <= 4 x <= 3 workers completely. Oracles: positional results, None for failed slots, callbacks exactly once per success with "
+    "the matching index, re-raise rules, termination. Derived equivalences (parallel DOE, DiscParallelExecution/Linearization, "
+    "MDOParallelChain, parallel finite differences, shared MemoryFullCache) are compared with sequential twins and closed forms.",
+    "Interleavings inside gemseo's own critical sections are not controlled (sampled only). Gate/start time-outs are harness "
+    "errors (exit 2), never violations; a gemseo call that does not return 45 s after every task was released is a violation.",
+    "schedule enumeration with harness-gated workers (exhaustive for small task counts) + Hypothesis for larger ones",
+)
+
 NOT_YET: dict[str, str] = {}
 
 
